@@ -111,7 +111,7 @@ func genC19World(src *choice.Src) *World {
 	}
 	w.NoGo = src.Chance("nogo", 1, 4)
 	if src.Chance("cwd", 1, 3) {
-		w.CwdSub = choice.Pick(src, "cwdsub", []string{"x", "deep/er/still", "a b"})
+		w.CwdSub = choice.Pick(src, "cwdsub", []string{"x", "deep/er/still", "a b", "proj[1]", "we*rd", "q?", "back\\slash"})
 		w.CwdGo = src.Bool("cwdgo")
 	}
 	if src.Chance("quiet", 1, 6) {
@@ -119,6 +119,20 @@ func genC19World(src *choice.Src) *World {
 	}
 	if src.Chance("freshout", 1, 5) {
 		w.PreOut = nil // regenerate into a fresh path instead of in place
+	} else if src.Chance("staleout", 1, 4) {
+		// what is at -o is not what the YAML declares (edited, truncated, a stub): the regenerate must
+		// put the declared wiring there
+		c := w.PreOut.Content
+		switch src.Draw("stalekind", 3) {
+		case 0:
+			c = "package gontainer\n\n// edited by hand\n"
+		case 1:
+			c = c[:len(c)/2]
+		case 2:
+			c = strings.Replace(c, "NewRunner", "NewRunnerX", 1)
+		}
+		w.PreOut = &InFile{Path: w.Out, Content: c, Mode: 0644}
+		w.Class = "self:stale-output"
 	}
 	// the same seven files under an equivalent, differently spelled invocation
 	switch src.Draw("spelling", 6) {
